@@ -104,6 +104,7 @@ class Aff:
         self.memo = {}
         self.opaque = set()
         self.no_inner = []
+        self.folds = {}
         self.loops = {}
         ls = [LoopInfo(h, bl, lat) for h, bl, lat in fn.loops()]
         for l in ls:
@@ -212,8 +213,13 @@ class Aff:
     def prove_ge0(self, e, ge_facts):
         """e >= 0 from the list of expressions known to be >= 0 (and sign assumptions of the symbols)"""
         e = sp.expand(self.early_sub(sp.sympify(e)))
+        if e.is_number:
+            return bool(e >= 0)
         if e.is_nonnegative:
             return True
+        # the strict-inequality tightening of fm is valid for integer-valued forms only
+        if any(not c_.is_Integer for c_ in e.as_coefficients_dict().values()):
+            return False
         ge_facts = [self.early_sub(sp.sympify(g)) for g in ge_facts]
         table = {}
         try:
@@ -347,6 +353,12 @@ class Aff:
             vals = [self.ev_edge(o, fn.bmap[lb], b) for o, lb in zip(d.ops, d.x['labels'])]
             if all(sp.expand(v - vals[0]) == 0 for v in vals[1:]):
                 return vals[0]
+            if len(vals) == 2:
+                c = self.merge_cond(d)
+                if c is not None:
+                    cmp_, first_true = c
+                    x, y = (vals[0], vals[1]) if first_true else (vals[1], vals[0])
+                    return sel(sp.Symbol(cmp_.pred), cmp_.a, cmp_.b, x, y)
             s = sp.Symbol('mrg_' + d.res.replace('.', '_'), real=True)
             self.opaque.add(s)
             return s
@@ -435,6 +447,36 @@ class Aff:
         if op in ('icmp', 'fcmp'):
             raise Unsupported('comparison used as a value')
         raise Unsupported('instruction %s' % op)
+
+    def merge_cond(self, d):
+        """two-way merge phi: the controlling comparison and whether the first incoming value is the one taken when it is true"""
+        fn = self.fn
+        b = d.block
+        dom = fn.idom().get(b)
+        if dom is None or dom.term.op != 'br' or len(dom.term.x['labels']) != 2 or not dom.term.ops:
+            return None
+        t, f = [fn.bmap[x] for x in dom.term.x['labels']]
+        p0, p1 = [fn.bmap[x] for x in d.x['labels']]
+
+        def side(p):
+            # which successor of dom leads to predecessor p (or p is dom itself: the edge dom->b)
+            if p is dom:
+                return 't' if t is b else ('f' if f is b else None)
+            rt = t is not b and (t is p or fn.reachable(t, p, avoid=(dom, b)))
+            rf = f is not b and (f is p or fn.reachable(f, p, avoid=(dom, b)))
+            if rt and not rf:
+                return 't'
+            if rf and not rt:
+                return 'f'
+            return None
+        s0, s1 = side(p0), side(p1)
+        if s0 is None or s1 is None or s0 == s1:
+            return None
+        try:
+            c = self.cond_of(dom.term.ops[0], dom)
+        except Unsupported:
+            return None
+        return c, s0 == 't'
 
     def ev_edge(self, v, src, dst):
         """operand of a phi in dst flowing along src->dst"""
@@ -567,6 +609,7 @@ class Aff:
             sy = sp.Symbol('opq_' + r.replace('.', '_'), real=True)
             self.opaque.add(sy)
             closed[r] = sy
+            self.folds[sy] = (l, init[r], pending[r] + l.P[r], l.P[r])
         l.closed = closed
         if l.T is None:
             l.T = self.trip(l)
@@ -803,7 +846,10 @@ class Aff:
             if d is not None and d.op == 'phi' and d.block is b and item.came is not None:
                 for o, lb in zip(d.ops, d.x['labels']):
                     if lb == item.came.name:
-                        return self.ev(o, item.came)
+                        try:
+                            return self.ev(o, b)
+                        except Unsupported:
+                            return self.ev(o, item.came)
         return self.ev(v, b)
 
     def emit(self, items=None, loop=None):
